@@ -4,18 +4,18 @@ Models: `Model/Floats.lean` (layout/float.py; the three arithmetic tests of `avo
 from `Gen/FloatTests.lean`, regenerated from the source on every run), `Model/Absolute.lean`
 (layout/absolute.py, `relative_positioning` of layout/block.py).  Helper lemmas: `Lemmas/Float*.lean`.
 
-Full strength (design-time defects F13, F14 repaired): `moves_down_when_possible`,
-`result_fits_or_is_free`, the exact halves of `abs_replaced_partial` / `abs_centred_v`.
+Full strength (defects repaired in /repo): `moves_down_when_possible`, `result_fits_or_is_free`, the exact halves of
+`abs_replaced` / `abs_centred_v` (F13, F14); `abs_equation_h`, `abs_equation_v`, `abs_replaced` for every auto
+pattern (7752e9b: an auto margin takes what the other margin leaves); `float_rules` for every float, an empty
+border box included (50ab141).
 Stated with an explicit hypothesis because the current code violates the full statement
 (witnesses in `Witness/C11.lean`, findings in known_findings.txt):
-  * `abs_equation_h_partial`, `abs_equation_v_partial`, `abs_replaced_partial`
-    (`¬ MarginDefectH/V`, `¬ ReplacedDefectH/V`: an auto margin is solved ignoring the other margin);
-  * `float_rules`, `float_no_overlap`, `float_place_invariants`, `all_floats_disjoint_and_ordered`
-    (`border_height ≠ 0`: a float with an empty border box is sent to the page origin).
+  * `float_no_overlap`, `float_place_invariants`, `all_floats_disjoint_and_ordered`
+    (`border_height ≠ 0`: a float with an empty border box is placed without looking at the other floats).
 Document-level model (`Model/FloatFlow.lean`): `cleared_top_spec` (clearance is added to the collapsed
 position), `inline_waiting_is_suffix`, `inline_placed_is_prefix` (a float met in a line after a deferred
-float is deferred too).  The snap of on-line floats to the line top is modelled as it is (known finding
-inline-float-snapped-to-line-top).
+float is deferred too).  Floats met inside lines keep the position `float_layout` gave them (330f66c);
+`Props/C11Inline.lean` holds the theorems about them.
 Boundary behaviour, not a finding: `as_high_as_possible`, `no_overlap`, `result_fits_or_is_free` are about
 shapes and boxes of positive height (`collide_zero_height_*` state what happens otherwise).
 -/
@@ -496,14 +496,16 @@ theorem float_position_spec (shapes : List Shape) (b : ABox) (cb : CB) (x y : Ra
   · intro hl; rw [h5, hp]; simp [hl]
   · intro hr; rw [h5, hp]; simp [hr]; grind
 
-/-- **Float rules** (CSS 2.1 §9.5.1), for a float with a non-empty border box:
+/-- **Float rules** (CSS 2.1 §9.5.1), for every float (a float whose border box has height 0 included: since
+50ab141 it stays at its static position against the edge of its containing block; before, it went to the page
+origin):
 rule 4 — its top is not above its static position; rules 5/6 — not above the top of the float
 placed just before it; rules 1/2/7 — when it fits next to the floats it collides with, a left float
 starts at the containing block's left edge or at the right edge of a colliding left float, ends
 before every colliding right float and inside the containing block (symmetrically for right
 floats). -/
 theorem float_rules (shapes : List Shape) (b : ABox) (cb : CB) (x y : Rat)
-    (hf : b.float ≠ .none) (hz : b.bh ≠ 0)
+    (hf : b.float ≠ .none)
     (h : findFloatPosition shapes b cb = .ok (x, y)) :
     b.py ≤ y ∧ (∀ s, shapes.getLast? = some s → s.y ≤ y) ∧
     (b.float = .left → cb.cx ≤ x ∧
@@ -511,6 +513,17 @@ theorem float_rules (shapes : List Shape) (b : ABox) (cb : CB) (x y : Rat)
     (b.float = .right → x + b.marginWidth ≤ cb.cx + cb.w ∧
       (x + b.marginWidth = cb.cx + cb.w ∨
         ∃ s ∈ shapes, s.side = .right ∧ collides s y b.marginHeight = true ∧ s.x = x + b.marginWidth)) := by
+  by_cases hz : b.bh = 0
+  · -- the early return of `avoid_collisions`
+    obtain ⟨y0, p, h1, h2, h3, h4, h5⟩ := findFloatPosition_ok shapes b cb x y h
+    rw [avoidCollisions_zero_float shapes { b with py := y0 } cb true hf hz] at h3
+    simp only [Except.ok.injEq, if_true] at h3
+    subst h3
+    simp only at h4 h5
+    subst h4
+    refine ⟨h1, h2, ?_, ?_⟩
+    · intro hl; simp [hl] at h5; subst h5; exact ⟨Rat.le_refl, Or.inl rfl⟩
+    · intro hr; simp [hr] at h5; subst h5; exact ⟨by grind, Or.inl (by grind)⟩
   obtain ⟨res, y0, hres, h1, h2, h3, h4, h5⟩ := float_position_spec shapes b cb x y hf hz h
   obtain ⟨hy, hl0, hr0⟩ := avoid_result_bounds _ shapes _ _ _ _ y0 res hres
   obtain ⟨_, hl, hr, _⟩ := avoidLoop_induct (fun _ => True) shapes b.marginWidth b.marginHeight cb.cx (cb.cx + cb.w)
@@ -533,6 +546,42 @@ theorem float_rules (shapes : List Shape) (b : ABox) (cb : CB) (x y : Rat)
     · right
       obtain ⟨hs1, hs2⟩ := mem_colliding.mp hs
       exact ⟨s, hs1, hside, hs2, by grind⟩
+
+/-- **A float with an empty border box** (`height: 0`, no vertical paddings or borders) is kept at
+`max(static y, top of the last float)` against the edge of its containing block on its side — inside the containing
+block whenever its margin box is not wider than it. -/
+theorem zero_height_float_stays (shapes : List Shape) (b : ABox) (cb : CB) (x y : Rat)
+    (hf : b.float ≠ .none) (hz : b.bh = 0) (h : findFloatPosition shapes b cb = .ok (x, y)) :
+    (y = b.py ∨ ∃ s, shapes.getLast? = some s ∧ y = s.y) ∧
+    (b.float = .left → x = cb.cx) ∧ (b.float = .right → x + b.marginWidth = cb.cx + cb.w) ∧
+    (b.marginWidth ≤ cb.w → cb.cx ≤ x ∧ x + b.marginWidth ≤ cb.cx + cb.w) := by
+  rcases b with ⟨bpx, bpy, bmt, bmb, bml, bmr, bbw, bbh, bfl, bcl, bk⟩
+  simp only at hf hz
+  subst hz
+  unfold findFloatPosition at h
+  simp only at h
+  rw [avoidCollisions_zero_float shapes _ cb true (by simpa using hf) rfl] at h
+  simp only [Except.ok.injEq, Prod.mk.injEq, if_true] at h
+  obtain ⟨hx, hy⟩ := h
+  have hside : bfl = .left ∨ bfl = .right := by cases bfl <;> simp_all
+  refine ⟨?_, ?_, ?_, ?_⟩
+  · rw [← hy]
+    cases hl : shapes.getLast? with
+    | none => left; rfl
+    | some s =>
+      simp only
+      by_cases hlt : bpy < s.y
+      · right; exact ⟨s, rfl, by simp [hlt]⟩
+      · left; simp [hlt]
+  · intro hl; simp only at hl; rw [← hx]; simp [hl]
+  · intro hr; simp only at hr; rw [← hx]; simp [hr]; grind
+  · intro hw
+    rcases hside with hl | hr
+    · rw [← hx]; simp [hl]; simp [ABox.marginWidth] at hw ⊢; grind
+    · rw [← hx]; simp [hr]; simp [ABox.marginWidth] at hw ⊢; grind
+
+example : (findFloatPosition [⟨50, 40, 20, 20, .left⟩] ⟨70, 70, 5, 5, 5, 5, 10, 0, .right, .none, .bfc⟩
+    ⟨50, 100, false⟩).toOption = some (130, 70) := by decide +kernel
 
 /-- **A placed float never overlaps an earlier float** (all with area), whether or not it fits in
 the containing block; and when it fits between the bounds it is inside the containing block. -/
@@ -623,7 +672,7 @@ theorem float_place_invariants (shapes : List Shape) (b : ABox) (cb : CB) (b' : 
   have hf1 : (afterClearance shapes b).float ≠ .none := by rw [f1]; exact hf
   have hz1 : (afterClearance shapes b).bh ≠ 0 := by rw [f2]; exact hz
   have hmh1 : 0 < (afterClearance shapes b).marginHeight := by rw [f3]; exact hmh
-  obtain ⟨r1, r2, _, _⟩ := float_rules shapes _ cb x y hf1 hz1 hpos
+  obtain ⟨r1, r2, _, _⟩ := float_rules shapes _ cb x y hf1 hpos
   obtain ⟨hno, _⟩ := float_no_overlap shapes _ cb x y hf1 hz1 hmh1 hp hpos
   rw [f3, f4] at hno
   subst hsh
@@ -731,37 +780,33 @@ theorem abs_left_honoured (b : HBox) (ltr : Bool) (cbX cbW l : Rat) (hl : b.left
   cases r <;> cases w <;> cases ml <;> cases mr <;> cases ltr <;>
     simp [usedH, absoluteWidthCore, HBox.pb, autoZero, shrinkToFit] at * <;> (try split) <;> grind
 
-/-- The cases in which `absolute_width` solves the equation for a margin without subtracting the
-other, specified, margin (known finding `abs-auto-margin-ignores-opposite-margin`), or, over-
-constrained in rtl, replaces `margin-left` instead of ignoring `left`: `left`, `right`, `width`
-all specified and the margin that is kept is not zero.  (Over-constrained ltr is not a defect:
-CSS 2.1 §10.3.7 says `right` is then ignored.) -/
-def MarginDefectH (b : HBox) (ltr : Bool) : Prop :=
-  b.left.isSome ∧ b.right.isSome ∧ b.width.isSome ∧
-  match b.ml, b.mr with
-  | none, none => False
-  | none, some mr => mr ≠ 0
-  | some ml, none => ml ≠ 0
-  | some ml, some mr => if ltr then ml ≠ 0 else mr ≠ 0
-
-/-
-Full statement (false of the current code, see `Witness.C11.abs_auto_margin_ignores_opposite_margin`):
-  theorem abs_equation_h (hr : b.right = some r) (not over-constrained ltr) :
-      u.x + u.ml + b.pb + u.w + u.mr = cbX + cbW - r
--/
-/-- **The horizontal constraint equation, right side** (`left + margins + borders + paddings + width +
+/-- **The horizontal constraint equation** (CSS 2.1 §10.3.7: `left + margins + borders + paddings + width +
 right = width of the containing block`, with the margin box starting at `cb_x + left`): a specified
 `right` is honoured — the margin box ends at `cb_x + cb_width − right` — in all 2³ × 2² auto patterns
-× ltr/rtl, outside the defect cases. -/
-theorem abs_equation_h_partial (b : HBox) (ltr : Bool) (cbX cbW r : Rat) (hr : b.right = some r)
-    (hd : ¬ MarginDefectH b ltr) :
+× ltr/rtl, with no exception: an auto margin takes what the other margin leaves (repaired in 7752e9b; before,
+the opposite margin was ignored), and when nothing is auto `margin-right` (ltr) / `margin-left` (rtl) is
+re-solved. -/
+theorem abs_equation_h (b : HBox) (ltr : Bool) (cbX cbW r : Rat) (hr : b.right = some r) :
     let u := usedH b ltr cbX cbW
     u.x + u.ml + b.pb + u.w + u.mr = cbX + cbW - r := by
   rcases b with ⟨l, r0, w, ml, mr, pl, pr, bl, br, mn, mx, mc, xc, px⟩
   simp at hr; subst hr
   cases l <;> cases w <;> cases ml <;> cases mr <;> cases ltr <;>
-    simp [MarginDefectH, usedH, absoluteWidthCore, HBox.pb, autoZero, shrinkToFit] at * <;>
+    simp [usedH, absoluteWidthCore, HBox.pb, autoZero, shrinkToFit] at * <;>
     (try split) <;> grind
+
+/-- With `left`, `right` and `width` specified, a specified margin is kept when the other one is auto; with
+nothing auto the start margin (`margin-left` in ltr, `margin-right` in rtl) is kept and the other one
+re-solved. -/
+theorem abs_specified_margin_kept (b : HBox) (ltr : Bool) (cbX cbW l r w : Rat)
+    (hl : b.left = some l) (hr : b.right = some r) (hw : b.width = some w) :
+    let u := usedH b ltr cbX cbW
+    (∀ m, b.ml = some m → (b.mr = none ∨ ltr = true) → u.ml = m) ∧
+    (∀ m, b.mr = some m → (b.ml = none ∨ ltr = false) → u.mr = m) := by
+  rcases b with ⟨l0, r0, w0, ml, mr, pl, pr, bl, br, mn, mx, mc, xc, px⟩
+  simp at hl hr hw; subst hl; subst hr; subst hw
+  cases ml <;> cases mr <;> cases ltr <;>
+    simp [usedH, absoluteWidthCore, HBox.pb, autoZero] <;> (try split) <;> simp
 
 /-- Both `left` and `right` auto: the static position is kept in ltr; in rtl the margin box ends at
 the right edge of the containing block (WeasyPrint's stand-in for the rtl static position). -/
@@ -913,8 +958,10 @@ theorem abs_width_minmax (b : HBox) (ltr : Bool) (cbX cbW : Rat) (r : HBox × Bo
 
 example : (usedH ⟨some 10, some 20, none, none, some 5, 1, 1, 2, 2, 0, none, 30, 300, 7⟩ false 100 200) =
     ⟨110, 159, 0, 5⟩ := by decide +kernel
-example : ¬ MarginDefectH ⟨some 10, some 20, none, none, some 5, 1, 1, 2, 2, 0, none, 30, 300, 7⟩ false := by
-  simp [MarginDefectH]
+/-- Non-vacuity on the formerly excluded pattern (`left`, `right`, `width` given, one auto margin, the other not 0):
+`left:0; right:0; width:50; margin-left:auto; margin-right:10` in 100 → `margin-left = 40`, margin box 0..100. -/
+example : usedH ⟨some 0, some 0, some 50, none, some 10, 0, 0, 0, 0, 0, none, 0, 0, 0⟩ true 0 100 = ⟨0, 50, 40, 10⟩ := by
+  decide +kernel
 
 /-- The used vertical values after `absolute_height` and the translation of `absolute_block`, `hc`
 being the height of the laid-out content (used when `height` stays auto). -/
@@ -951,31 +998,16 @@ theorem abs_top_honoured (b : VBox) (cbY cbH hc t : Rat) (ht : b.top = some t) :
   cases bo <;> cases h <;> cases mt <;> cases mb <;>
     simp [usedV, absoluteHeight, VBox.pb, autoZero] <;> grind
 
-/-- The vertical defect cases: `top`, `bottom`, `height` specified, one margin solved without
-subtracting the other (over-constrained: `bottom` is ignored, as CSS 2.1 §10.6.4 says). -/
-def MarginDefectV (b : VBox) : Prop :=
-  b.top.isSome ∧ b.bottom.isSome ∧ b.height.isSome ∧
-  match b.mt, b.mb with
-  | none, none => False
-  | none, some mb => mb ≠ 0
-  | some mt, none => mt ≠ 0
-  | some mt, some _ => mt ≠ 0
-
-/-
-Full statement (false of the current code, see `Witness.C11.abs_auto_margin_top_ignores_margin_bottom`):
-  theorem abs_equation_v (hb : b.bottom = some bo) (not over-constrained) :
-      u.y + u.mt + b.pb + u.h + u.mb = cbY + cbH - bo
--/
-/-- **The vertical constraint equation, bottom side**: a specified `bottom` is honoured — the margin
-box ends at `cb_y + cb_height − bottom` — in all auto patterns, outside the defect cases. -/
-theorem abs_equation_v_partial (b : VBox) (cbY cbH hc bo : Rat) (hb : b.bottom = some bo)
-    (hd : ¬ MarginDefectV b) :
+/-- **The vertical constraint equation** (CSS 2.1 §10.6.4): a specified `bottom` is honoured — the margin
+box ends at `cb_y + cb_height − bottom` — in all auto patterns, with no exception (an auto margin takes what
+the other margin leaves, repaired in 7752e9b; with nothing auto `margin-bottom` is re-solved). -/
+theorem abs_equation_v (b : VBox) (cbY cbH hc bo : Rat) (hb : b.bottom = some bo) :
     let u := usedV b cbY cbH hc
     u.y + u.mt + b.pb + u.h + u.mb = cbY + cbH - bo := by
   rcases b with ⟨t, bo0, h, mt, mb, pt, pb, bt, bb, py⟩
   simp at hb; subst hb
   cases t <;> cases h <;> cases mt <;> cases mb <;>
-    simp [MarginDefectV, usedV, absoluteHeight, VBox.pb, autoZero] at * <;> grind
+    simp [usedV, absoluteHeight, VBox.pb, autoZero] at * <;> grind
 
 /-- `top` and `bottom` auto: the static position is kept. -/
 theorem abs_static_position_v (b : VBox) (cbY cbH hc : Rat) (ht : b.top = none) (hb : b.bottom = none) :
@@ -1024,15 +1056,6 @@ end Absolute
 section Replaced
 open Wp.Absolute
 
-/-- The defect cases of the horizontal half: both offsets specified and exactly one margin auto,
-solved without subtracting the other margin (known finding `abs-auto-margin-ignores-opposite-margin`). -/
-def ReplacedDefectH (b : RBox) : Prop :=
-  b.left.isSome ∧ b.right.isSome ∧
-  match b.ml, b.mr with
-  | none, some mr => mr ≠ 0
-  | some ml, none => ml ≠ 0
-  | _, _ => False
-
 /-- Horizontal half of `absolute_replaced`: every auto is resolved; nothing but offsets and margins
 changes; specified offsets are kept (except the one CSS 2.1 §10.3.8 says to ignore when
 over-constrained: `right` in ltr, `left` in rtl); specified margins are kept (except …). -/
@@ -1046,20 +1069,12 @@ theorem abs_replaced_h (b : RBox) (ltr : Bool) (cbX cbW : Rat) :
       -- static position
       (b.left = none → b.right = none → (ltr = true → l = b.posX - cbX) ∧ (ltr = false → rt = cbX + cbW - b.posX)) ∧
       -- the equation
-      (¬ ReplacedDefectH b → l + ml + b.borderWidth + mr + rt = cbW) := by
+      l + ml + b.borderWidth + mr + rt = cbW := by
   rcases b with ⟨l, r, t, bo, ml, mr, mt, mb, w, h, pl, pr, bl, br, pt, pb, bt, bb, px, py⟩
   cases l <;> cases r <;> cases ml <;> cases mr <;> cases ltr <;>
-    simp [absoluteReplacedH, autoZero, RBox.borderWidth, ReplacedDefectH] <;>
+    simp [absoluteReplacedH, autoZero, RBox.borderWidth] <;>
     (try split) <;> (try simp) <;> (try grind)
 
-
-/-- The same, vertically. -/
-def ReplacedDefectV (b : RBox) : Prop :=
-  b.top.isSome ∧ b.bottom.isSome ∧
-  match b.mt, b.mb with
-  | none, some mb => mb ≠ 0
-  | some mt, none => mt ≠ 0
-  | _, _ => False
 
 /-- Vertical half of `absolute_replaced` (over-constrained: `bottom` is ignored). -/
 theorem abs_replaced_v (b : RBox) (cbY cbH : Rat) :
@@ -1070,28 +1085,25 @@ theorem abs_replaced_v (b : RBox) (cbY cbH : Rat) :
       (∀ b0, b.bottom = some b0 → (b.top = none ∨ b.mt = none ∨ b.mb = none) → bo = b0) ∧
       (b.top = none → b.bottom = none → t = b.posY - cbY) ∧
       (b.top.isSome → b.bottom.isSome → b.mt = none → b.mb = none → mt = mb) ∧
-      (¬ ReplacedDefectV b → t + mt + b.borderHeight + mb + bo = cbH) := by
+      t + mt + b.borderHeight + mb + bo = cbH := by
   rcases b with ⟨l, r, t, bo, ml, mr, mt, mb, w, h, pl, pr, bl, br, pt, pb, bt, bb, px, py⟩
   cases t <;> cases bo <;> cases mt <;> cases mb <;>
-    simp [absoluteReplacedV, autoZero, RBox.borderHeight, ReplacedDefectV] <;>
+    simp [absoluteReplacedV, autoZero, RBox.borderHeight] <;>
     (try split) <;> (try simp) <;> (try grind)
 
-/-
-Full statement (false of the current code, see `Witness.C11.abs_replaced_auto_margin_ignores_opposite_margin`):
-  the two equations below without the `¬ ReplacedDefectH b` / `¬ ReplacedDefectV b` hypotheses.
--/
-/-- **`absolute_replaced`**: it never fails; the box is placed at `cb + (left, top)`; outside the
-defect cases `left + margin-left + border box + margin-right + right = cb_width` and likewise
-vertically, for all 2⁴ auto patterns per axis in ltr and rtl; two auto margins share the remaining
-space exactly (`remaining / 2`, repaired) when it is not negative. -/
-theorem abs_replaced_partial (b : RBox) (ltr : Bool) (cbX cbY cbW cbH : Rat) :
+/-- **`absolute_replaced`** (CSS 2.1 §10.3.8 / §10.6.5): it never fails; the box is placed at `cb + (left, top)`;
+`left + margin-left + border box + margin-right + right = cb_width` and likewise vertically, for all 2⁴ auto
+patterns per axis in ltr and rtl, with no exception (one auto margin takes what the other margin leaves, repaired
+in 7752e9b); two auto margins share the remaining space exactly (`remaining / 2`, repaired in f3eca6a) when it
+is not negative. -/
+theorem abs_replaced (b : RBox) (ltr : Bool) (cbX cbY cbW cbH : Rat) :
     ∃ r l rt t bo ml mr mt mb, absoluteReplaced b ltr cbX cbY cbW cbH = .ok r ∧
       r.left = some l ∧ r.right = some rt ∧ r.top = some t ∧ r.bottom = some bo ∧
       r.ml = some ml ∧ r.mr = some mr ∧ r.mt = some mt ∧ r.mb = some mb ∧
       r.posX = cbX + l ∧ r.posY = cbY + t ∧
       r.borderWidth = b.borderWidth ∧ r.borderHeight = b.borderHeight ∧
-      (¬ ReplacedDefectH b → l + ml + b.borderWidth + mr + rt = cbW) ∧
-      (¬ ReplacedDefectV b → t + mt + b.borderHeight + mb + bo = cbH) ∧
+      l + ml + b.borderWidth + mr + rt = cbW ∧
+      t + mt + b.borderHeight + mb + bo = cbH ∧
       (b.top.isSome → b.bottom.isSome → b.mt = none → b.mb = none → mt = mb) := by
   obtain ⟨l, rt, ml, mr, h1, h2, h3, h4, hf, _, _, _, heq⟩ := abs_replaced_h b ltr cbX cbW
   obtain ⟨t, bo, mt, mb, g1, g2, g3, g4, gf, _, _, _, gc, geq⟩ :=
@@ -1104,8 +1116,6 @@ theorem abs_replaced_partial (b : RBox) (ltr : Bool) (cbX cbY cbW cbH : Rat) :
     rw [hf]; simp [RBox.borderHeight]
   have e6 : (absoluteReplacedH b ltr cbX cbW).borderWidth = b.borderWidth := by
     rw [hf]; simp [RBox.borderWidth]
-  have hdef : ReplacedDefectV (absoluteReplacedH b ltr cbX cbW) ↔ ReplacedDefectV b := by
-    unfold ReplacedDefectV; rw [e1, e2, e3, e4]
   have hl : (absoluteReplacedV (absoluteReplacedH b ltr cbX cbW) cbY cbH).left = some l := by
     rw [gf]; simp; exact h1
   refine ⟨{ absoluteReplacedV (absoluteReplacedH b ltr cbX cbW) cbY cbH with posX := cbX + l, posY := cbY + t },
@@ -1120,15 +1130,15 @@ theorem abs_replaced_partial (b : RBox) (ltr : Bool) (cbX cbY cbW cbH : Rat) :
     · simp; rw [gf]; simp; exact h4
     · simp only [RBox.borderWidth]; rw [gf]; simp; exact e6
     · simp only [RBox.borderHeight]; rw [gf]; simp; exact e5
-    · intro hd; rw [← e5]; exact geq (fun h => hd (hdef.mp h))
+    · rw [← e5]; exact geq
     · rw [← e1, ← e2, ← e3, ← e4]; exact gc
 
 example : (absoluteReplacedH ⟨some 10, some 20, none, none, none, none, none, none, 40, 30, 0, 0, 1, 1, 0, 0, 1, 1, 5, 7⟩
-    true 100 105).ml = some (33 / 2) ∧
-    ¬ ReplacedDefectH ⟨some 10, some 20, none, none, none, none, none, none, 40, 30, 0, 0, 1, 1, 0, 0, 1, 1, 5, 7⟩ := by
-  constructor
-  · decide +kernel
-  · simp [ReplacedDefectH]
+    true 100 105).ml = some (33 / 2) := by decide +kernel
+
+/-- The formerly excluded pattern: `left:0; right:0; margin-left:auto; margin-right:10` on a 50-px image in 100. -/
+example : (absoluteReplacedH ⟨some 0, some 0, some 0, none, none, some 10, some 0, some 0, 50, 10,
+    0, 0, 0, 0, 0, 0, 0, 0, 0, 0⟩ true 0 100).ml = some 40 := by decide +kernel
 
 end Replaced
 
@@ -1241,49 +1251,47 @@ theorem cleared_top_spec (shapes : List Shape) (c : Clear) (y cm : Rat) :
 example : (clearedTop [⟨0, 0, 50, 54, .left⟩] .left 10 30).1 = 54 ∧
     (clearedTop [⟨0, 0, 50, 54, .left⟩] .left 10 45).1 = 55 := by decide +kernel
 
-/-- **Once a float of a line waits, every later float of that line waits** (`_out_of_flow_layout`:
-`if float_width > max_x - position_x or waiting_floats`): after a deferred float no float is laid
-out on the line itself. -/
-theorem inline_waiting_is_suffix (cb : CB) (lineY : Rat) (shapes : List Shape) (rem : Rat) (bs : List ABox)
-    (shapes' : List Shape) (out : List (ABox × Option (Rat × Rat × Rat × Rat)))
-    (h : inlinePass1 cb lineY shapes rem true bs = .ok (shapes', out)) :
-    shapes' = shapes ∧ ∀ e ∈ out, e.2 = none := by
-  induction bs generalizing out shapes' with
-  | nil => simp [inlinePass1] at h; exact ⟨h.1.symm, by rw [h.2]; simp⟩
+/-- Once a float of a line waits, every later float of the line waits too, and neither float list changes. -/
+theorem inline_waiting_is_suffix (cb : CB) (lineY : Rat) (attr top : List Shape) (rem : Rat) (bs : List ABox)
+    (attr' top' : List Shape) (out : List (ABox × Option (Rat × Rat × Rat × Rat)))
+    (h : inlinePass1 cb lineY attr top rem true bs = .ok (attr', top', out)) :
+    attr' = attr ∧ top' = top ∧ ∀ e ∈ out, e.2 = none := by
+  induction bs generalizing out attr' top' with
+  | nil => simp [inlinePass1] at h; exact ⟨h.1.symm, h.2.1.symm, by rw [h.2.2]; simp⟩
   | cons b rest ih =>
     simp only [inlinePass1, Bool.or_true, if_true] at h
     split at h
     · simp at h
-    · rename_i sh o hrec
+    · rename_i a t o hrec
       simp only [Except.ok.injEq, Prod.mk.injEq] at h
-      obtain ⟨i1, i2⟩ := ih sh o hrec
-      refine ⟨by rw [← h.1]; exact i1, ?_⟩
-      rw [← h.2]
+      obtain ⟨i1, i2, i3⟩ := ih a t o hrec
+      refine ⟨by rw [← h.1]; exact i1, by rw [← h.2.1]; exact i2, ?_⟩
+      rw [← h.2.2]
       intro e he
       rcases List.mem_cons.mp he with he | he
       · rw [he]
-      · exact i2 e he
+      · exact i3 e he
 
 /-- **A float met in a line is never placed above an earlier float of the same line**: the floats laid
-out on the line form a prefix of the line's floats (each at the line's top), everything after the
+out on the line form a prefix of the line's floats, everything after the
 first deferred float is deferred (and is then laid out from the line's bottom). -/
-theorem inline_placed_is_prefix (cb : CB) (lineY : Rat) (shapes : List Shape) (rem : Rat) (bs : List ABox)
-    (shapes' : List Shape) (out : List (ABox × Option (Rat × Rat × Rat × Rat)))
-    (h : inlinePass1 cb lineY shapes rem false bs = .ok (shapes', out)) :
+theorem inline_placed_is_prefix (cb : CB) (lineY : Rat) (attr top : List Shape) (rem : Rat) (bs : List ABox)
+    (attr' top' : List Shape) (out : List (ABox × Option (Rat × Rat × Rat × Rat)))
+    (h : inlinePass1 cb lineY attr top rem false bs = .ok (attr', top', out)) :
     ∃ n, (∀ e ∈ out.take n, e.2.isSome = true) ∧ (∀ e ∈ out.drop n, e.2 = none) := by
-  induction bs generalizing shapes shapes' rem out with
-  | nil => simp [inlinePass1] at h; exact ⟨0, by simp, by rw [h.2]; simp⟩
+  induction bs generalizing attr top attr' top' rem out with
+  | nil => simp [inlinePass1] at h; exact ⟨0, by simp, by rw [h.2.2]; simp⟩
   | cons b rest ih =>
     simp only [inlinePass1, Bool.or_false] at h
     split at h
     · -- this float waits: everything after it waits
       split at h
       · simp at h
-      · rename_i sh o hrec
+      · rename_i a t o hrec
         simp only [Except.ok.injEq, Prod.mk.injEq] at h
-        obtain ⟨_, i2⟩ := inline_waiting_is_suffix cb lineY shapes rem rest sh o hrec
+        obtain ⟨_, _, i2⟩ := inline_waiting_is_suffix cb lineY attr top rem rest a t o hrec
         refine ⟨0, by simp, ?_⟩
-        rw [← h.2]
+        rw [← h.2.2]
         intro e he
         simp at he
         rcases he with he | he
@@ -1294,17 +1302,17 @@ theorem inline_placed_is_prefix (cb : CB) (lineY : Rat) (shapes : List Shape) (r
       · rename_i b' sh1 hpl
         split at h
         · simp at h
-        · rename_i sh o hrec
+        · rename_i a t o hrec
           simp only [Except.ok.injEq, Prod.mk.injEq] at h
-          obtain ⟨n, j1, j2⟩ := ih sh1 _ sh o hrec
+          obtain ⟨n, j1, j2⟩ := ih sh1 sh1 _ a t o hrec
           refine ⟨n + 1, ?_, ?_⟩
-          · rw [← h.2]
+          · rw [← h.2.2]
             intro e he
             simp at he
             rcases he with he | he
             · rw [he]; rfl
             · exact j1 e he
-          · rw [← h.2]; simpa using j2
+          · rw [← h.2.2]; simpa using j2
 
 
 end Wp.C11
